@@ -113,6 +113,19 @@ def run_impl(inp, work):
         with open('temp.csv', 'w') as fh:
             fh.write('USER FILE')
 
+    if inp['user_temp']:
+        # the user's own files whose names DERIVE from the requested output's name (an earlier export called
+        # temp_<name>, editor / backup files): whatever the export uses as scratch space, these must survive untouched
+        tdir, tbase = os.path.dirname(target), os.path.basename(target)
+        stem = tbase[:tbase.rfind('.')] if '.' in tbase else tbase
+        if os.path.isdir(tdir):
+            for nm in ('temp_' + tbase, 'tmp_' + tbase, tbase + '.tmp', tbase + '~', '.' + tbase, stem + '_temp.csv',
+                       stem + '.tmp', 'temp_' + stem, stem + '.csv.part'):
+                pth = os.path.join(tdir, nm)
+                if not os.path.exists(pth) and os.path.abspath(pth) != target:
+                    with open(pth, 'w') as fh:
+                        fh.write('USER ' + nm[:12])
+
     def listing():
         out = {}
         for d in (cwd, os.path.join(cwd, 'sub'), data_dir, tmpdir):
